@@ -109,7 +109,20 @@ func newC19World(c *mon.Ctx, g *model.Gen, algs [2]string) (*c19World, error) {
 				// invalid through a claim that neither the dispatcher
 				// (profile) nor the mutate op (client id) depends on
 				a = g.Valid(p)
-				switch g.R.Intn(6) {
+				k := g.R.Intn(8)
+				if k >= 6 {
+					// profile 1 with BOTH a component list and the
+					// no-software-measurements flag
+					p = 1
+					a = g.Valid(1)
+					one := uint64(1)
+					a.NoMeas, a.HasComps = &one, true
+					if len(a.Comps) == 0 {
+						a.Comps = []model.Comp{g.ValidComp()}
+					}
+				}
+				switch k {
+				case 6, 7:
 				case 0:
 					a.ImplID = model.BP(g.Bytes(31))
 				case 1:
@@ -555,7 +568,7 @@ func c19Run(c *mon.Ctx, g *model.Gen, w *c19World, ops []c19Op, tag string) int 
 }
 
 func runC19(c *mon.Ctx) {
-	c.Rule(fmt.Sprintf("histories on ONE Evidence (claims attached) over an alphabet of %d operations: SetClaims(valid|invalid), direct assignment of valid/invalid claims, outside mutation of the attached claims, Sign / ValidateAndSign with signers {working key 0, working key 1, returns error, returns error AND bytes, returns (nil,nil), returns empty, returns garbage of right / wrong length, reports an unsupported algorithm, reports the reserved algorithm}, UnmarshalCOSE of {valid token by key 0 / key 1, validly signed token with invalid claims, tampered token, garbage, empty input, validly signed envelope whose payload does not decode as claims, the token this Evidence produced last}; after EVERY operation Verify is probed with key 0, key 1, an unrelated key and nil in random order. All histories of length <= 3 are enumerated exhaustively (fault kinds x positions), plus seeded random histories of length 4..30; algorithms rotate over ES256/384/512, EdDSA, PS256/384/512. Trace checker (model: attached claims identity, last envelope = none | token T | unknown-after-failed-decode, claims-replaced flag): a failed op returns no bytes; working signer + encodable (valid for ValidateAndSign) claims => success, also after any number of failures; every produced token verifies independently and on its own, its payload = encoding of the attached claims; after a failed sign every Verify fails; after producing/consuming token T, Evidence.Verify(pk) <=> independent verifier(T, pk); whenever Verify succeeds and claims were not replaced since the last sign/decode attempt, the held signature covers the held protected+payload under pk (hook H2 + stdlib crypto) and the attached claims are nil or equal to the decoding of that payload. distinct_nontrivial = distinct operation sequences (length<=3: all; longer: distinct op-kind sequences)", len(c19Alphabet)))
+	c.Rule(fmt.Sprintf("histories on ONE Evidence (claims attached) over an alphabet of %d operations: SetClaims(valid|invalid), direct assignment of valid/invalid claims (invalid = wrong implementation id / instance id / nonce / life cycle / empty VSI, or profile 1 carrying both a component list and the no-software-measurements flag), outside mutation of the attached claims, Sign / ValidateAndSign with signers {working key 0, working key 1, returns error, returns error AND bytes, returns (nil,nil), returns empty, returns garbage of right / wrong length, reports an unsupported algorithm, reports the reserved algorithm}, UnmarshalCOSE of {valid token by key 0 / key 1, validly signed token with invalid claims, tampered token, garbage, empty input, validly signed envelope whose payload does not decode as claims, the token this Evidence produced last}; after EVERY operation Verify is probed with key 0, key 1, an unrelated key and nil in random order. All histories of length <= 3 are enumerated exhaustively (fault kinds x positions), plus seeded random histories of length 4..30; algorithms rotate over ES256/384/512, EdDSA, PS256/384/512. Trace checker (model: attached claims identity, last envelope = none | token T | unknown-after-failed-decode, claims-replaced flag): a failed op returns no bytes; working signer + encodable (valid for ValidateAndSign) claims => success, also after any number of failures; every produced token verifies independently and on its own, its payload = encoding of the attached claims; after a failed sign every Verify fails; after producing/consuming token T, Evidence.Verify(pk) <=> independent verifier(T, pk); whenever Verify succeeds and claims were not replaced since the last sign/decode attempt, the held signature covers the held protected+payload under pk (hook H2 + stdlib crypto) and the attached claims are nil or equal to the decoding of that payload. distinct_nontrivial = distinct operation sequences (length<=3: all; longer: distinct op-kind sequences)", len(c19Alphabet)))
 	if err := extprof.Register(extprof.ExtP2Name); err != nil {
 		c.Violation("harness/register", err.Error(), nil)
 		return
